@@ -81,6 +81,15 @@ class sstr(metaclass=_StrMeta):
     join = str.join
 
 
+def srepr(x):
+    """repr() that keeps a symbolic number symbolic (a number hole with the 'repr' conversion)"""
+    if isinstance(x, core.SNum):
+        return text.SText([text.Hole('num', 'repr', x)])
+    if isinstance(x, (text.SText, core.SBool)):
+        raise core.Unsupported("repr() of symbolic text / condition")
+    return repr(x)
+
+
 class _IntMeta(type):
     def __instancecheck__(cls, x):
         if isinstance(x, core.SNum):
@@ -369,7 +378,7 @@ class _Loader(importlib.machinery.SourceFileLoader):
     def exec_module(self, module):
         module.__dict__.update(HELPERS)
         if not INSTRUMENT_ONLY:     # the float/str shims only make sense together with the models (real scipy wants real dtypes)
-            module.__dict__.update({'float': sfloat, 'str': sstr})
+            module.__dict__.update({'float': sfloat, 'str': sstr, 'repr': srepr})
         super().exec_module(module)
         if not INSTRUMENT_ONLY:
             _rebind(module)
